@@ -183,6 +183,17 @@ def corruptions(root, doc, rng, limit):
             dup.attrs["abstract"] = "false" if dup.attrs.get("abstract") == "true" else "true"
         cs.children.insert(rng.randrange(len(cs.children) + 1), dup)
         out.append(("dup-container-changed", "SequenceContainer", referenced, "reject", r))
+        # ... and a duplicate whose only difference is its descriptive text: two different definitions under one name
+        r, pts, ps, cs = fresh()
+        dup = copy.deepcopy(cs.children[i])
+        if rng.random() < 0.5:
+            dup.attrs["shortDescription"] = (dup.attrs.get("shortDescription") or "") + " (revised)"
+        else:
+            for ld_ in [ch for ch in dup.children if ch.tag == "LongDescription"]:
+                dup.children.remove(ld_)
+            dup.children.insert(0, render.E("LongDescription", text="a different long description"))
+        cs.children.insert(rng.randrange(len(cs.children) + 1), dup)
+        out.append(("dup-container-changed-description", "SequenceContainer", referenced, "reject", r))
     # ---- deletions -------------------------------------------------------------------------------------------------------
     for i, t in enumerate(pts0.children):
         r, pts, ps, cs = fresh()
